@@ -402,9 +402,10 @@ func convertColumnToNumbers(wipBlock *WipBlock, colName string, segmentKey strin
 				continue
 			}
 
-			// Try converting to a float.
+			// Try converting to a float. "inf", "Infinity" and "NaN" parse, but they are not
+			// numbers a column can hold: they cannot be written in a JSON response.
 			floatVal, err := strconv.ParseFloat(numberAsString, 64)
-			if err == nil {
+			if err == nil && !math.IsInf(floatVal, 0) && !math.IsNaN(floatVal) {
 				// Conversion succeeded.
 				newColWip.cbuf.Append(sutils.VALTYPE_ENC_FLOAT64[:])
 				newColWip.cbuf.AppendFloat64LittleEndian(floatVal)
